@@ -350,6 +350,8 @@ def run(ctx):
     ledger_columns(ctx, mon)
     if ctx.shard % 4 == 1 or not ctx.quick:
         subquery_histories(ctx, mon)
+    if ctx.shard % 4 == 2 or not ctx.quick:
+        pivot_statements(ctx, mon)
 
 
 run.last = 0
@@ -414,6 +416,31 @@ def ledger_columns(ctx, mon):
                     ctx.count('obs.cells_checked', sum(len(r) for r in res[1]))
 
 
+PIVOTS = [
+    'SELECT sum(number) AS total, account, year GROUP BY 2, 3 PIVOT BY 2, 3',
+    'SELECT year, sum(number) AS total, account GROUP BY 1, 3 PIVOT BY 3, 1',
+    'SELECT account, year, sum(position) AS s, count(*) AS n GROUP BY 1, 2 PIVOT BY 1, 2',
+    'SELECT count(*) AS n, currency, max(date) AS last, flag, sum(cost(position)) AS c GROUP BY currency, flag PIVOT BY flag, currency',
+    'SELECT first(narration) AS f, month, min(number) AS mn, year GROUP BY month, year PIVOT BY year, month',
+    'SELECT account, sum(number) AS s, year(date) AS y, last(payee) AS p GROUP BY 1, 3 PIVOT BY y, account',
+]
+
+
+def pivot_statements(ctx, mon):
+    """PIVOT BY with the pivot columns at any target positions and remaining columns of different datatypes."""
+    rng = ctx.rng('pivot')
+    for i in range(ctx.pick(2, 20)):
+        led = ledgers.gen_ledger(rng, ntxn=10)
+        conn = engine.connection(ledger=led.loaded)
+        for text in PIVOTS:
+            case = {'statement': text, 'ledger': led.text}
+            res = execute(ctx, conn, text, mon, case)
+            ctx.case(('pivot', text, i), True)
+            ctx.count('obs.pivot_statements')
+            if res is not None:
+                check_result(ctx, text, res[0], res[1], mon, case, prefix='c04.pivot')
+
+
 def subquery_histories(ctx, mon):
     """Histories of statements over sub-queries on one connection: the names and datatypes a sub-query exposes belong to that
     statement only. A later statement that uses a name some EARLIER sub-query defined must either be rejected or be type-sound."""
@@ -467,6 +494,8 @@ def finalize(merged):
         reasons.append(f"registry sweep incomplete: {len(ex) + len(nc)}/{c.get('registry.instantiations')}")
     if c.get('obs.node_evaluations', 0) == 0:
         reasons.append('node evaluation hook never fired')
+    if c.get('obs.pivot_statements', 0) == 0:
+        reasons.append('no PIVOT BY statement executed')
     if c.get('obs.subquery_history_statements', 0) == 0:
         reasons.append('no sub-query history executed')
     if c.get('obs.ledger_statements', 0) == 0:
